@@ -58,7 +58,7 @@ CHECKS = {
  "C12": ("exploration", "the C09 programs x all help-shaped lines (listing, every command and nested path in three spellings, wrong step, hidden, help option at every position), structural oracle",
          "For every program of the C09 set: `help` must list every command of every visible group exactly once with its summary and no hidden one; help for every command and nested sub-command path (as `help p1 .. pn`, `p1 .. pn -h`, `.. --help`, with the parents' options and values in front of the sub-command name) must contain each description paragraph, a Usage row with the full path, every positional and option with names, value name and documentation, and every sub-command; an unknown step or hidden command prints only `error: unknown command`; and -h / --help / a cluster containing h inserted at every position of every argument line never reaches the handler (after -- it is an ordinary argument).",
          "Help text is checked structurally, not against pinned text; `help -h` and `help --` are left open.", "4 C12"),
- "C16": ("model_checking", "the C01/C05/C06 explorations and the derived-parser enumeration repeated under all 8 feature-set builds with the reference configured per build, plus a cross-build digest of the feature-independent labelled state graph",
+ "C16": ("model_checking", "the C01/C05/C06 explorations, the derived-parser enumeration and (in builds with autocomplete) the completion enumeration repeated under all 8 feature-set builds with the reference configured per build, plus a cross-build digest of the feature-independent labelled state graph",
          "The harness is built 8 times (--no-default-features --features macros,verif-hooks[,history][,autocomplete][,help]); every build runs the C01, C05 and C06 quick explorations with the reference configured for that build (history off: Up/Down change neither line nor screen; autocomplete off: Tab likewise; help off: `help`/--help lines are dispatched like any command, incl. a derived command set with its own `help`), and the digest of the labelled state graph over the alphabet that touches no optional facility must be identical in all builds. Precondition: the library builds under all 16 combinations with/without macros.",
          "Same bounds as C01/C05/C06 quick.", "4 C16"),
 }
